@@ -333,7 +333,13 @@ class ctx:
         Check if current asyncio task is cancelled, raises CancelledError if so.
         """
 
-        if (task := current_task()) and task.cancelling() > 0:
+        try:
+            task: Task[Any] | None = current_task()
+
+        except RuntimeError:
+            return  # no running event loop (i.e. executor thread) - there is no task to be cancelled
+
+        if task is not None and task.cancelling() > 0:
             raise CancelledError()
 
     @staticmethod
